@@ -17,4 +17,14 @@ PROPS = {
         "assumptions": ["reference model = documented API semantics", "empty value == nil value", "linux/amd64, tmpfs-backed files"],
         "parts": [part("TestC04", {"checks": 700, "steps": 70, "timeout": 300}, {"checks": 15000, "steps": 90, "timeout": 1500})],
     },
+    "C05": {
+        "level": "exploration",
+        "title": "cursor navigation",
+        "technique": "property-based testing of generated cursor programs against a sorted-list-with-position oracle, incl. same-transaction deletes that empty leaves",
+        "design_ref": "DESIGN.md §3 C05",
+        "text": "Generated bucket shapes x generated same-transaction batches (directed at emptying whole leaves) x generated First/Last/Next/Prev/Seek programs, each call compared with a sorted list with a position; a watchdog turns a cursor call that does not return into a violation. Exploration: the property quantifies over all contents and call sequences.",
+        "note": "Cursors are repositioned after every mutation (as the Cursor doc requires); unpositioned cursors are not navigated; position after a Seek beyond the last key is taken to be 'end' (Prev returns the last key).",
+        "assumptions": ["sorted list with a position is the specification", "hang = no return within 20 s of a call that normally takes microseconds"],
+        "parts": [part("TestC05", {"checks": 1500, "timeout": 300}, {"checks": 40000, "timeout": 1500})],
+    },
 }
